@@ -340,3 +340,176 @@ theorem leftPerm_dims {K : Type} [Add K] [Mul K] [Zero K] [One K]
   exact ⟨_, rfl, by simp [DMat.kron, DMat.eye], by simp [DMat.kron, DMat.eye]⟩
 
 end QM.C07
+
+namespace QM.C07
+/-! ## list-level Kronecker products and run-time-sized matrix–vector products -/
+section listlevel
+variable {K : Type} [CommSemiring K]
+
+/-- `np.kron` of two 1-d arrays as lists (`kronL` of the model at any scalar type) -/
+def kronLG (u v : List K) : List K := u.flatMap fun x => v.map fun y => x * y
+
+theorem kronL_eq (u v : List Rat) : kronL u v = kronLG u v := rfl
+
+theorem length_flatMap_map' {α β γ : Type} (l : List α) (fs : List β) (g : α → β → γ) :
+    (l.flatMap fun a => fs.map (g a)).length = l.length * fs.length := by
+  induction l with
+  | nil => simp
+  | cons a l ih => simp [List.flatMap_cons, ih, Nat.succ_mul, Nat.add_comm]
+
+theorem getElem?_flatMap_map' {α β γ : Type} (l : List α) (fs : List β) (g : α → β → γ)
+    (i j : Nat) (a : α) (b : β) (hi : l[i]? = some a) (hj : fs[j]? = some b) :
+    (l.flatMap fun a => fs.map (g a))[i * fs.length + j]? = some (g a b) := by
+  have hjlt : j < fs.length := by
+    rcases Nat.lt_or_ge j fs.length with h | h
+    · exact h
+    · rw [List.getElem?_eq_none h] at hj; cases hj
+  induction l generalizing i with
+  | nil => simp at hi
+  | cons x l ih =>
+    cases i with
+    | zero =>
+      simp only [List.getElem?_cons_zero, Option.some.injEq] at hi
+      subst hi
+      simp only [List.flatMap_cons, Nat.zero_mul, Nat.zero_add]
+      rw [List.getElem?_append_left (by simpa using hjlt)]
+      simp [hj]
+    | succ i =>
+      simp only [List.getElem?_cons_succ] at hi
+      simp only [List.flatMap_cons]
+      rw [List.getElem?_append_right (by simp [Nat.succ_mul]; omega)]
+      have : (i + 1) * fs.length + j - (fs.map (g x)).length = i * fs.length + j := by
+        simp [Nat.succ_mul]; omega
+      rw [this]
+      exact ih i hi
+
+theorem kronLG_length (u v : List K) : (kronLG u v).length = u.length * v.length :=
+  length_flatMap_map' u v _
+
+/-- typed `kronVec` and list `kronLG` agree -/
+theorem kronVec_toList {a b : Nat} (x : Vec K a) (y : Vec K b) :
+    (kronVec x y).toList = kronLG x.toList y.toList := by
+  apply List.ext_getElem?
+  intro i
+  by_cases hi : i < a * b
+  · have hb : 0 < b := by
+      rcases Nat.eq_zero_or_pos b with h | h
+      · subst h; simp at hi
+      · exact h
+    have hq : i / b < a := Nat.div_lt_of_lt_mul (by rwa [Nat.mul_comm] at hi)
+    have hr : i % b < b := Nat.mod_lt _ hb
+    have h1 : x.toList[i / b]? = some x[i / b] := by simp [hq]
+    have h2 : y.toList[i % b]? = some y[i % b] := by simp [hr]
+    have := getElem?_flatMap_map' x.toList y.toList (fun p q => p * q) (i / b) (i % b) _ _ h1 h2
+    simp only [Vector.length_toList] at this
+    rw [Nat.div_add_mod'] at this
+    unfold kronLG
+    rw [this]
+    simp [kronVec, Vec.ofFn, hi, fdiv, fmod, Vec.get]
+  · have h1 : (kronVec x y).toList[i]? = none := by simp; omega
+    have h2 : (kronLG x.toList y.toList)[i]? = none := by
+      rw [List.getElem?_eq_none]; rw [kronLG_length]; simp; omega
+    rw [h1, h2]
+
+theorem kronLG_assoc (a b c : List K) : kronLG (kronLG a b) c = kronLG a (kronLG b c) := by
+  simp only [kronLG, List.flatMap_assoc, List.map_flatMap, List.flatMap_map, List.map_map]
+  congr 1; funext x
+  simp only [List.flatMap_def, List.map_map]
+  congr 2; funext y
+  congr 1; funext z
+  simp [mul_assoc]
+
+theorem kronLG_one_left (a : List K) : kronLG [1] a = a := by simp [kronLG]
+theorem kronLG_one_right (a : List K) : kronLG a [1] = a := by
+  simp [kronLG]
+
+/-- `np.kron` of a list of 1-d arrays (left to right) -/
+def kronAll : List (List K) → List K
+  | [] => [1]
+  | v :: vs => kronLG v (kronAll vs)
+
+theorem kronAll_append (a b : List (List K)) : kronAll (a ++ b) = kronLG (kronAll a) (kronAll b) := by
+  induction a with
+  | nil => simp [kronAll, kronLG_one_left]
+  | cons v vs ih => simp only [List.cons_append, kronAll, ih, kronLG_assoc]
+
+theorem kronAll_length (vs : List (List K)) : (kronAll vs).length = prodL (vs.map List.length) := by
+  induction vs with
+  | nil => simp [kronAll, prodL]
+  | cons v vs ih => simp only [kronAll, kronLG_length, ih, List.map_cons, prodL_cons]
+
+
+/-- a list of the right length as a typed vector -/
+def ofList (l : List K) (n : Nat) (h : l.length = n) : Vec K n := ⟨l.toArray, by simp [h]⟩
+
+theorem ofList_toList (l : List K) (n : Nat) (h : l.length = n) : (ofList l n h).toList = l := by
+  simp [ofList, Vector.toList]
+
+theorem ofList_vec {n : Nat} (w : Vec K n) (h : w.toList.length = n) : ofList w.toList n h = w := by
+  cases w; simp [ofList, Vector.toList]
+
+theorem toList?_eq (l : List K) (n : Nat) (h : l.length = n) : DMat.toList? l n = some (ofList l n h) := by
+  simp [DMat.toList?, h, ofList]
+
+theorem mulVecL_of_length (A : DMat K) (l : List K) (h : l.length = A.c) :
+    A.mulVecL l = .ok (A.m.mulVec (ofList l A.c h)).toList := by
+  simp [DMat.mulVecL, toList?_eq l A.c h]
+
+theorem mat_mulVec_mulVec {a b c : Nat} (A : Mat K a b) (B : Mat K b c) (w : Vec K c) :
+    (A.mul B).mulVec w = A.mulVec (B.mulVec w) := by
+  apply Vec.toV_injective; simp [Matrix.mulVec_mulVec]
+
+/-- `(A @ B) @ x = A @ (B @ x)` for the run-time-sized matrices -/
+theorem mul_mulVecL (A B C : DMat K) (h : A.mul B = .ok C) (l y : List K) (hy : B.mulVecL l = .ok y) :
+    C.mulVecL l = A.mulVecL y := by
+  obtain ⟨ar, ac, am⟩ := A
+  obtain ⟨br, bc, bm⟩ := B
+  unfold DMat.mul at h
+  simp only at h
+  split at h
+  · rename_i hc
+    subst hc
+    injection h with h; subst h
+    unfold DMat.mulVecL at hy ⊢
+    simp only at hy ⊢
+    cases hl : DMat.toList? l bc with
+    | none => simp [hl] at hy
+    | some w =>
+      simp only [hl] at hy ⊢
+      injection hy with hy; subst hy
+      have : DMat.toList? (bm.mulVec w).toList ac = some (bm.mulVec w) := by
+        simp [DMat.toList?, Vector.toList]
+      simp [this, mat_mulVec_mulVec]
+  · cases h
+
+theorem leftPerm_explicit (pre : List Nat) (sq sp : Nat) (post : List Nat) :
+    leftPerm (K := K) (pre.length + 1) (pre ++ sq :: sp :: post)
+      = .ok ⟨prodL pre * (sp * sq) * prodL post, prodL pre * (sq * sp) * prodL post,
+             kron (kron (Mat.one : Mat K (prodL pre) (prodL pre)) (Kmat sp sq)) (Mat.one : Mat K (prodL post) (prodL post))⟩ := by
+  have h1 : (pre ++ sq :: sp :: post)[pre.length + 1]? = some sp := by
+    rw [List.getElem?_append_right (by omega)]; simp
+  have h2 : (pre ++ sq :: sp :: post)[pre.length + 1 - 1]? = some sq := by simp
+  have h3 : (pre ++ sq :: sp :: post).take (pre.length + 1 - 1) = pre := by simp
+  have h4 : (pre ++ sq :: sp :: post).drop (pre.length + 1 + 1) = post := by
+    have : pre ++ sq :: sp :: post = (pre ++ [sq, sp]) ++ post := by simp
+    rw [this, List.drop_left' (by simp)]
+  have hhead : (if pre.length + 1 < 2 then 1 else prodL pre) = prodL pre := by
+    split
+    · have : pre = [] := List.length_eq_zero_iff.mp (by omega)
+      subst this; rfl
+    · rfl
+  have htail : (if pre.length + 1 < (pre ++ sq :: sp :: post).length - 1 then prodL post else 1) = prodL post := by
+    split
+    · rfl
+    · rename_i h
+      have hl : (pre ++ sq :: sp :: post).length = pre.length + 2 + post.length := by
+        simp only [List.length_append, List.length_cons]; omega
+      rw [hl] at h
+      have : post = [] := List.length_eq_zero_iff.mp (by omega)
+      subst this; rfl
+  unfold leftPerm
+  simp only [h1, h2, h3, h4, hhead, htail, bind, Except.bind, pure, Except.pure]
+  rfl
+
+end listlevel
+end QM.C07
